@@ -23,6 +23,7 @@ import (
 	"verif/props/c11"
 	"verif/props/c12"
 	"verif/props/c13"
+	"verif/props/c14"
 	"verif/props/c16"
 	"verif/props/c17"
 	"verif/props/c20"
@@ -47,6 +48,7 @@ var props = map[string]prop{
 	"C11": {"exploration", c11.Run, c11.Replay},
 	"C12": {"exploration", c12.Run, c12.Replay},
 	"C13": {"exploration", c13.Run, c13.Replay},
+	"C14": {"exploration", c14.Run, c14.Replay},
 	"C16": {"model_checking", c16.Run, c16.Replay},
 	"C17": {"exploration", c17.Run, c17.Replay},
 	"C20": {"exploration", c20.Run, c20.Replay},
